@@ -981,10 +981,57 @@ def gen_setinput():
     return 'SetInput.lean', '\n'.join(lines), echo
 
 
-GENERATORS = [gen, gen_methods, gen_lens, gen_setinput]
+# ------------------------------------------------------------------ where a frequency getter takes its vector from (next to the spectral getter)
+FREQ_PAIRS = [('CoherenceAnalyzer', 'nitime/analysis/coherence.py', 'frequencies', 'spectrum')]
+DELEGATION = 'tsa.get_spectra(self.input.data, method=self.method)'
+
+
+def _getter_src(fn, calls):
+    """body = [docstring], `a, b = <call>`, `return a|b`  ->  ('component', call number, index); anything else -> None"""
+    if fn is None:
+        return None
+    body = [st for st in fn.body if not (isinstance(st, ast.Expr) and isinstance(st.value, ast.Constant))]
+    if len(body) != 2 or not isinstance(body[0], ast.Assign) or not isinstance(body[1], ast.Return):
+        return None
+    tgt = body[0].targets[0]
+    if len(body[0].targets) != 1 or not isinstance(tgt, ast.Tuple) or not all(isinstance(e, ast.Name) for e in tgt.elts) \
+            or not isinstance(body[0].value, ast.Call) or not isinstance(body[1].value, ast.Name):
+        return None
+    names = [e.id for e in tgt.elts]
+    if body[1].value.id not in names or len(set(names)) != len(names):
+        return None
+    text = unparse(body[0].value)
+    if text not in calls:
+        calls.append(text)
+    return ('component', calls.index(text), names.index(body[1].value.id))
+
+
+def gen_freqsrc():
+    echo, lines = {}, ['-- GENERATED by harness/translate_c05.py (gen_freqsrc): where the frequency getter and the spectral getter take their values from. DO NOT EDIT.',
+                       'import Nitime.Model.C05Src', 'namespace Nitime.Generated.FreqSrc', 'open Nitime.C05', '']
+    rows = []
+    for cls, path, fattr, sattr in FREQ_PAIRS:
+        tree = T.parse(path)
+        calls = [DELEGATION]
+        srcs = []
+        for attr in (fattr, sattr):
+            r = _getter_src(T.find_func(tree, attr, cls), calls)
+            srcs.append('.other' if r is None else '(.component %d %d)' % (r[1], r[2]))
+        echo[cls] = {fattr: srcs[0], sattr: srcs[1], 'calls': list(calls)}
+        lines.append('/-- `%s.%s` / `%s.%s`; call texts: %s -/' % (cls, fattr, cls, sattr, '; '.join('%d = `%s`' % (i, c) for i, c in enumerate(calls))))
+        lines.append('def %s : FreqPair := ⟨%s, %s, true⟩' % (cls, srcs[0], srcs[1]))
+        lines.append('')
+        rows.append(cls)
+    lines.append('def pairs : List (String × FreqPair) := [%s]' % ', '.join('("%s", %s)' % (c, c) for c in rows))
+    lines += ['', 'end Nitime.Generated.FreqSrc', '']
+    return 'FreqSrc.lean', '\n'.join(lines), echo
+
+
+GENERATORS = [gen, gen_methods, gen_lens, gen_setinput, gen_freqsrc]
 
 if __name__ == '__main__':
     print(gen()[1])
     print(gen_methods()[1])
     print(gen_lens()[1])
     print(gen_setinput()[1])
+    print(gen_freqsrc()[1])
